@@ -101,6 +101,12 @@ CHECKS["C11"] = dict(level="exploration", engine="sweep",
    note="The allocation threshold (64 KiB) is far below any window that can be rejected at the default limit and far above the decoder's fixed scratch allocations.",
    design="3/C11")
 
+CHECKS["C18"] = dict(level="exploration", engine="sweep",
+   technique="all four feature configurations built and run on an identical enumerated case file, cross-build equality; the no_std I/O shims explored as a closed system against std::io",
+   text="The configuration space has exactly four points ({std, no_std} x {hash, no hash}); one driver is built against each and fed the same case file: every string over {a,b} up to length 10/13 and inputs at the length / literal-count thresholds (compressed at both levels), up to 40/200 frames of the repository's decode corpus plus halves of them, 120/400 seed frames with six truncations each, a frame+skippable+frame input (decoded through decode_all_to_vec and through the streaming reader). All four decoder outcomes (digest and length of the bytes, or the error variant) must be equal; compressor output must be byte-identical between std and no_std, and the hash-off output must equal the hash-on output with descriptor bit 2 cleared and the last four bytes removed - nothing else. Inside every build the crate's Read/read_exact/take/read_to_end/Write/write_all run as a closed system against std::io as the reference model: every (slice length 0..=4, buffer length 0..=4, limit 0..=5, program of <= 3 operations) = 56k programs.",
+   note="Error messages are not compared (they legitimately differ), only variants; a driver that does not finish within 300 s is reported as a hang.",
+   design="3/C18")
+
 NOT_YET = {}
 
 def main():
